@@ -481,6 +481,25 @@ def _run_shapes(case, ctx):
     pd = lib(obj.tp.dumps)
     if isinstance(pd, Err) or pd != P(a2):
         raise Violation("dumps-changes-address", f"{what}: tp.dumps() = {pd!r}, expected {P(a2).hex()}")
+    # ---- a target whose own parse depends on the structure holding the pointer (an array typedef sized by a sibling
+    # member): single pointers and elements of a pointer array carry the values of THAT structure, not of an outer one
+    cs2 = m.cstruct(endian=case["endian"], pointer=case["ptr"])
+    r2_ = lib(cs2.load, "typedef uint8 buf_t[n]; struct Ctx { uint8 n; buf_t *many[2]; buf_t *one; }; struct Outer { uint8 n; Ctx cx; uint8 t; };", compiled=case["compiled"])
+    if isinstance(r2_, Err):
+        raise Violation("definition-rejected", f"context-dependent target: {r2_}", r2_.where)
+    inner_n = 1 + case["n"]
+    hs2 = 1 + 1 + 3 * w + 1
+    a_ = [hs2 + 2, hs2 + 2 + 8, hs2 + 2 + 16]
+    img2 = bytes([inner_n + 4, inner_n]) + b"".join(P(x) for x in a_) + b"\x7e" + bytes(range(0x30, 0x30 + 40))
+    st2 = io.BytesIO(img2)
+    o2 = lib(cs2.Outer, st2)
+    if isinstance(o2, Err):
+        raise Violation("header-parse-raised", f"{what} (context-dependent target): {o2}", o2.where)
+    for label, pt, ad in (("cx.many[0]", lambda: o2.cx.many[0], a_[0]), ("cx.many[1]", lambda: o2.cx.many[1], a_[1]), ("cx.one", lambda: o2.cx.one, a_[2])):
+        rd = lib(lambda: list(pt().dereference()))
+        if isinstance(rd, Err) or rd != list(img2[ad : ad + inner_n]):
+            raise Violation("dereference-wrong-target", f"{what}: {label} points to 'uint8 buf_t[n]' with n = {inner_n} in the structure holding the pointer (the enclosing structure has n = {inner_n + 4}): dereference gave {rd!r}, the {inner_n} bytes at {ad} are {list(img2[ad:ad + inner_n])}")
+    ctx.count("shapes:context-dependent-target")
     ctx.count(f"shapes:{case['ptr']}:{case['endian']}:{'compiled' if case['compiled'] else 'interpreted'}")
     ctx.count(f"shapes:pad:{'zero' if pad == 0 else 'positive'}")
     ctx.count(f"shapes:strlen:{case['strlen']}")
